@@ -26,6 +26,17 @@ caller uses; half of the cases whose ordering is the code-point order), an int-v
 tuple-valued or a str-valued callable inducing the same ranking.  Part of the generators are
 consumed in two pieces with `clear_cache()` / other queries on the same object in between
 (partially consumed generators, see also C20).
+
+Round 3 (seeded changes C14_w3m2, C20_w3m3, and the C14 side of C13_w3m1): CHAINS — 3–8 successor-search calls
+(successors / predecessors / successor / predecessor) made one after the other on ONE live object.  Part of the
+steps start at the word the previous call returned (`w = d.successor(w)` loops, then the same word asked about
+again non-strictly, strictly, in the other direction, with another window, through the generator); between
+consecutive calls strictness, direction, window, wrapper and the RANKING are changed.  keymode "shared" hands
+the SAME callable object to every call of the chain (four ways of writing it: `rank.get`, a closure over the
+dict, a closure over a rebound variable, a callable instance) and changes the ranking behind it; the oracle
+uses the ranking in force at the moment of the call.  Live objects are built under the default options or
+under allow_mutable_automata=True from plain / aliased / copied containers; the oracle and the model see the
+frozen twin.  A failing chain is minimised and recorded as a concrete replay.
 """
 from __future__ import annotations
 
@@ -36,6 +47,7 @@ from automata.fa.dfa import DFA
 
 from harness import gen
 from harness import dfa_query_lib as L
+from harness import dfa_query_lib3 as L3
 from harness.common import guarded as case_guard
 from harness.common import Ctx, InfraError, Toks, call, enc_dfa, toks
 
@@ -48,7 +60,11 @@ RULE = ("cases = (valid DFA, start string or None, strict, key (None / int- / tu
         "tier), then shaped random DFAs (≤6 states) whose start and window are aimed at an accepted word in 70 % of the "
         "cases (starts: None, '', accepted words, prefixes, extensions, unreadable, longer than max_length); a case is "
         "non-trivial when the DFA has ≥2 states and the expected output is non-empty; distinct = distinct "
-        "(definition, arguments)")
+        "(definition, arguments); chains = 3–8 calls on ONE object (answers fed back as the next start, strictness / "
+        "direction / window / wrapper / ranking changed between consecutive calls, one shared key callable re-ranked "
+        "between calls, object built under the default options or under allow_mutable_automata=True from plain "
+        "containers): every ordering of the alphabet in turn and written-out successor loops on 5 corpus DFAs, random "
+        "chains on shaped random DFAs, each answer judged by the sorted filter with the ranking of that moment")
 F13_KEY = "C14:start-string-with-foreign-symbol"
 F14_KEY = "C14:empty-alphabet"
 
@@ -56,6 +72,10 @@ ASSUMPTIONS = [
     "positive theorems: start strings use only symbols of a non-empty alphabet; outside that the code fails (foreign symbol → KeyError: open finding F13; empty alphabet → IndexError: open finding F14), reproduced and reported on every run",
     "forward direction on an infinite language is only used with max_length (otherwise the generator need not produce a next word)",
     "the key is injective on the alphabet (a symbol ordering); no state is literally None",
+    "a key callable is a pure function DURING a call; between two calls its ranking may change (same callable object): "
+    "each call must honour the ranking in force when it is made",
+    "allow_mutable_automata=True: the caller does not modify the containers it handed over; answers are judged against "
+    "the definition as built (frozen twin)",
 ]
 EXPLANATION = ("Theorems C14_* relate the model's stack machine to the sorted filter of the window set; this "
                "run ties the model to the code by differential execution and evaluates the property on the "
@@ -327,6 +347,12 @@ def compare_with_model(ctx: Ctx, d: DFA, enc: str, sy, p: dict, obs: dict) -> No
 
 @case_guard
 def check_case(ctx: Ctx, d: DFA, enc: str, sy, shape: dict, p: dict, origin: str):
+    if L.TIMEOUTS >= 6:
+        # every call that does not return costs a full time-out and IS a recorded failure: stop producing more
+        if not any("cases skipped" in n for n in ctx.notes):
+            ctx.note(f"{L.TIMEOUTS} real calls did not return within {TIMEOUT_S}s; the remaining cases skipped")
+        ctx.stat("skipped:after_repeated_timeouts")
+        return
     kind = domain_kind(d, p, shape)
     if kind in ("foreign_symbol", "empty_alphabet"):
         return finding_case(ctx, d, enc, sy, shape, p, kind)
@@ -509,6 +535,386 @@ def check_dfa_random(ctx: Ctx, d: DFA, origin: str, cases: int):
         check_case(ctx, d, enc, sy, shape, p, origin)
 
 
+# ------------------------------------------------------------------ round 3: chains of calls on ONE object
+# A *chain* is a list of successor-search calls made one after the other on one live object.  Each step is
+# a parameter dict `p` as above plus  call ∈ {successors, predecessors, successor, predecessor}  and
+# keymode ∈ {shared, none, none_explicit, int, tuple, str}.  keymode "shared": ONE callable object for the
+# whole chain (L3.SharedKey, four ways of writing it) whose ranking is set to p["key"] just before the
+# call — the oracle always uses the ranking in force AT THE MOMENT of the call.  Steps marked from_prev
+# start at the word the previous call returned (correlated calls: successor → successor(strict=False) →
+# predecessor …, window / strictness / direction / ranking / wrapper changed between consecutive calls).
+# The live object is built by L3.build_live (default options or allow_mutable_automata=True with plain
+# containers); every answer is judged by the brute-force sorted filter evaluated on the frozen twin.
+CHAIN_CALLS = ["successors", "predecessors", "successor", "predecessor"]
+CHAIN_TIMEOUT_S = 4
+MINIMISE_BUDGET_S = 12
+
+
+def hanging(ctx: Ctx, limit: int = 3) -> bool:
+    """A traversal that no longer terminates costs a full time-out per call: after a few of them the family
+    stops (the failing inputs found so far are reported)."""
+    if L.TIMEOUTS >= limit:
+        if not any("did not return" in n for n in ctx.notes):
+            ctx.note(f"{L.TIMEOUTS} real calls did not return within their time limit; chain family cut short")
+        return True
+    return False
+
+
+class ChainOracle:
+    """The sorted filter of the window set, from ONE brute-force enumeration of the twin's language."""
+
+    def __init__(self, d: DFA, shape: dict = None, hi: int = None, bw: dict = None):
+        self.d = d
+        self.shape = shape or L.language_shape(d)
+        self.hi = hi_for(d, self.shape) if hi is None else hi
+        self.bw = bw if bw is not None else (L.brute_words(d, self.hi) if self.feasible() else {})
+
+    def feasible(self) -> bool:
+        return bool(self.d.input_symbols) and len(self.d.input_symbols) ** self.hi <= 5000
+
+    def full(self, p: dict):
+        sh = self.shape
+        if p["reverse"] and not sh["finite"]:
+            return ("err", "InfiniteLanguageException")
+        if sh["empty"]:
+            return ("ok", [])
+        hi = p["max"] if p["max"] is not None else sh["max"]
+        if sh["finite"]:
+            hi = sh["max"] if hi is None else min(hi, sh["max"])
+        if hi > self.hi:
+            if len(self.d.input_symbols) ** hi > 20000:
+                raise InfraError(f"chain oracle: window up to {hi} too large on {self.d!r}")
+            self.bw = L.brute_words(self.d, hi)
+            self.hi = hi
+        kl = L.key_lex(p["key"])
+        W = [w for k in range(p["min"], hi + 1) for w in self.bw.get(k, [])]
+        if p["start"] is not None:
+            ks = kl(p["start"])
+            if p["reverse"]:
+                W = [w for w in W if kl(w) < ks or (not p["strict"] and w == p["start"])]
+            else:
+                W = [w for w in W if kl(w) > ks or (not p["strict"] and w == p["start"])]
+        return ("ok", sorted(W, key=kl, reverse=p["reverse"]))
+
+    def expected(self, p: dict):
+        full = self.full(p)
+        if p["call"] in ("successors", "predecessors"):
+            if full[0] == "err":
+                return full if p["n"] > 0 else ("ok", [])     # a generator that is never advanced raises nothing
+            return ("ok", full[1][: p["n"]])
+        if full[0] == "err":
+            return full
+        return ("ok", full[1][0] if full[1] else None)
+
+    def first_word(self, p: dict):
+        full = self.full(p)
+        return full[1][0] if full[0] == "ok" and full[1] else None
+
+
+def show_chain_step(p: dict) -> str:
+    args = [repr(p["start"])]
+    if not p["strict"]:
+        args.append("strict=False")
+    mode = p.get("keymode", "int")
+    if mode != "none":
+        order = "".join(sorted(p["key"], key=lambda c: p["key"][c]))
+        args.append("key=None" if mode == "none_explicit" else f"key=<{mode}: {order}>")
+    if p["call"] == "successors" and p["reverse"]:
+        args.append("reverse=True")
+    if p["min"]:
+        args.append(f"min_length={p['min']}")
+    if p["max"] is not None:
+        args.append(f"max_length={p['max']}")
+    txt = f"{p['call']}({', '.join(args)})"
+    return txt if p["call"] in ("successor", "predecessor") else f"first {p['n']} of {txt}"
+
+
+def chain_call_raw(c: DFA, p: dict, shared: L3.SharedKey):
+    kw = dict(strict=p["strict"], min_length=p["min"], max_length=p["max"])
+    mode = p.get("keymode", "int")
+    if mode == "shared":
+        kw["key"] = shared.set(p["key"])
+    elif mode != "none":
+        kw["key"] = None if mode == "none_explicit" else key_callable(p)
+    call_ = p["call"]
+    if call_ == "successors":
+        return list(itertools.islice(c.successors(p["start"], reverse=p["reverse"], **kw), p["n"]))
+    if call_ == "predecessors":
+        return list(itertools.islice(c.predecessors(p["start"], **kw), p["n"]))
+    if call_ == "successor":
+        return c.successor(p["start"], **kw)
+    return c.predecessor(p["start"], **kw)
+
+
+def run_chain(d: DFA, mode: str, style: str, chain, orc: ChainOracle = None):
+    """Build the live object and ONE shared callable, make the calls, judge every answer; stops at the first
+    wrong answer.  Returns (observations, failures [(index, message)])."""
+    orc = orc or ChainOracle(d)
+    obs, bad = [], []
+    with L3.mutable_option(mode):
+        keep = []
+        live = L3.build_live(d, mode, keep)
+        shared = L3.SharedKey(style)
+        for i, p in enumerate(chain):
+            got = L.guarded(lambda: chain_call_raw(live, p, shared), CHAIN_TIMEOUT_S)
+            obs.append(got)
+            exp = orc.expected(p)
+            if got != exp:
+                shown = "no answer within %d s" % CHAIN_TIMEOUT_S if got == ("err", "_Timeout") else f"= {str(got)[:160]}"
+                bad.append((i, f"{shown}, the sorted filter of the window set gives {str(exp)[:160]}"))
+                break
+    return obs, bad
+
+
+def minimise_chain(d: DFA, mode: str, style: str, chain, index: int, orc: ChainOracle):
+    """Shortest sub-chain (greedy, one step at a time, within a time budget) that still ends in a wrong answer."""
+    import time
+    t0 = time.time()
+    cur = [dict(p) for p in chain[: index + 1]]
+    fails_at_end = lambda ch: any(i == len(ch) - 1 for i, _ in run_chain(d, mode, style, ch, orc)[1])
+    if not fails_at_end(cur):
+        return cur
+    j = len(cur) - 2
+    while j >= 0 and len(cur) > 1 and time.time() - t0 < MINIMISE_BUDGET_S:
+        cand = cur[:j] + cur[j + 1:]
+        if fails_at_end(cand):
+            cur = cand
+        j -= 1
+    return cur
+
+
+def chain_step_in_domain(d: DFA, p: dict, shape: dict) -> bool:
+    if p["call"] == "successor" and p["reverse"]:
+        return False
+    if p["call"] in ("predecessor", "predecessors") and not p["reverse"]:
+        return False
+    if p.get("keymode") in ("none", "none_explicit") and not codepoint_order(d.input_symbols, p["key"]):
+        return False
+    return in_domain(d, p, shape)
+
+
+@case_guard
+def check_chain(ctx: Ctx, d: DFA, mode: str, style: str, chain, origin: str, orc: ChainOracle = None, model: bool = True):
+    if hanging(ctx):
+        return
+    orc = orc or ChainOracle(d)
+    shape = orc.shape
+    chain = [p for p in chain if chain_step_in_domain(d, p, shape)]
+    if not chain:
+        return
+    obs, bad = run_chain(d, mode, style, chain, orc)
+    enc, st, sy = enc_dfa(d)
+    some_output = False
+    for p, got in zip(chain, obs):
+        ctx.case(None)
+        ctx.stat(f"chain_call:{p['call']}")
+        ctx.stat(f"chain_key:{p.get('keymode', 'int')}")
+        if p.get("from_prev"):
+            ctx.stat("chain_step:starts_at_previous_answer")
+        if got[0] == "ok" and got[1]:
+            some_output = True
+    ctx.case(("chain", mode, style, enc, json.dumps(chain, sort_keys=True)) if len(d.states) >= 2 and some_output and len(chain) >= 2 else None)
+    ctx.stat(f"chain:{origin}:{mode}")
+    ctx.stat(f"chain_keystyle:{style}")
+    n_rank = len({json.dumps(p["key"], sort_keys=True) for p in chain if p.get("keymode") == "shared"})
+    ctx.stat(f"chain_shared_rankings:{min(n_rank, 3)}{'+' if n_rank >= 3 else ''}")
+    if ctx.stats.get(f"chain:{origin}:{mode}", 0) % 120 == 1:
+        ctx.sample(dict(automaton=repr(d), mode=mode, keystyle=style, chain=[show_chain_step(p) for p in chain[:6]],
+                        answers=[str(o)[:60] for o in obs[:6]]))
+    if bad:
+        i, msg = bad[0]
+        small = chain[: i + 1] if obs[i] == ("err", "_Timeout") else minimise_chain(d, mode, style, chain, i, orc)
+        hist = "; ".join(show_chain_step(p) for p in small[:-1])
+        what = (f"{show_chain_step(chain[i])} {msg} — on ONE object ({mode} containers, shared key written as {style}) "
+                + (f"after [{hist}]" if hist else "as its first call"))
+        ctx.prop_fail(what, dict(automaton=repr(d), params=dict(chain=small, keystyle=style, mode=mode), what=what), None)
+        return
+    if not model:
+        return
+    for p, got in zip(chain, obs):
+        q = dict(p, n=p["n"] if p["call"] in ("successors", "predecessors") else 1)
+        m = model_succ(ctx, enc, sy, q)
+        if m["end"] == "outOfFuel" or m["first"][0] == "fuel":
+            ctx.stat("model:outOfFuel")
+            continue
+        if p["call"] in ("successors", "predecessors"):
+            mo = ("ok", []) if p["n"] == 0 else model_as_observation(m, p["n"])
+        else:
+            mo = m["first"]
+        ctx.stat("chain:answer_compared_with_model")
+        if mo != got:
+            ctx.corr_diff("CHAIN " + p["call"], dict(automaton=repr(d), step=p), got, mo)
+
+
+def chain_keymode(rng, d: DFA, key: dict) -> str:
+    if codepoint_order(d.input_symbols, key) and rng.random() < 0.45:
+        return rng.choice(["none", "none", "none_explicit"])
+    return rng.choice(["shared"] * 8 + ["int", "tuple", "str"])
+
+
+def other_ranking(rng, d: DFA, key: dict) -> dict:
+    for _ in range(6):
+        k2 = L.rand_key(rng, d.input_symbols)
+        if sorted(k2, key=k2.get) != sorted(key, key=key.get):
+            return k2
+    return dict(key)
+
+
+def set_chain_call(rng, p: dict, orc: ChainOracle, single=None):
+    """Choose the wrapper for the direction of p and the number of words asked of a generator."""
+    single = rng.random() < 0.5 if single is None else single
+    if p["reverse"]:
+        p["call"] = "predecessor" if single else rng.choice(["predecessors", "successors"])
+    else:
+        p["call"] = "successor" if single else "successors"
+    full = orc.full(p)
+    total = len(full[1]) if full[0] == "ok" else 1
+    p["n"] = total + 1 if rng.random() < 0.6 else rng.randint(0, total + 1)
+    return p
+
+
+def rand_chain(rng, d: DFA, orc: ChainOracle):
+    shape, hi = orc.shape, orc.hi
+    chain = []
+    tries = 0
+    want = rng.randint(3, 7)
+    while len(chain) < want and tries < 40:
+        tries += 1
+        if chain and rng.random() < 0.8:
+            prev = chain[-1]
+            p = {k: v for k, v in prev.items() if k not in ("from_prev", "split")}
+            p["key"] = dict(prev["key"])
+            ans = orc.first_word(prev)
+            if ans is not None and rng.random() < 0.8:
+                p["start"] = ans
+                p["from_prev"] = True
+            single = None
+            for var in rng.sample(["strict", "strict", "reverse", "window", "rerank", "rerank", "call", "same"], rng.choice([1, 1, 2])):
+                if var == "strict":
+                    p["strict"] = not p["strict"]
+                elif var == "reverse":
+                    p["reverse"] = not p["reverse"]
+                elif var == "window":
+                    ln = len(p["start"] or "")
+                    p["min"] = rng.choice([0, 0, min(ln, hi), rng.randint(0, hi)])
+                    p["max"] = rng.choice([min(ln, hi), min(ln + 1, hi), hi, rng.randint(0, hi), None])
+                elif var == "rerank":
+                    p["key"] = other_ranking(rng, d, p["key"])
+                    p["keymode"] = "shared" if prev.get("keymode") in ("shared", "none", "none_explicit") else prev["keymode"]
+                elif var == "call":
+                    single = prev["call"] not in ("successor", "predecessor")
+            if not p["reverse"] and not shape["finite"] and p["max"] is None:
+                p["max"] = rng.randint(0, hi)
+            if p.get("keymode") in ("none", "none_explicit") and not codepoint_order(d.input_symbols, p["key"]):
+                p["keymode"] = "shared"
+            if single is None:
+                single = prev["call"] in ("successor", "predecessor")
+            set_chain_call(rng, p, orc, single)
+        else:
+            p = rand_params(rng, d, orc.bw, shape, hi)
+            p["keymode"] = chain_keymode(rng, d, p["key"])
+            if not in_domain(d, p, shape):
+                continue
+            set_chain_call(rng, p, orc)
+        if chain_step_in_domain(d, p, shape):
+            chain.append(p)
+    return chain
+
+
+def walk_chain(orc: ChainOracle, start, lo, hi, keymode: str, key: dict, reverse: bool = False):
+    """The loop `w = d.successor(w)` written out, each step followed by the questions a caller may ask about
+    the word just returned: the same word again non-strictly, strictly, in the other direction, with
+    another window, through the generator."""
+    fin = orc.shape["finite"]
+    one, many = ("predecessor", "predecessors") if reverse else ("successor", "successors")
+    base = dict(strict=True, key=dict(key), keymode=keymode, reverse=reverse, min=lo, max=hi, n=1)
+    chain = []
+    w = start
+    for _ in range(4):
+        p = dict(base, call=one, start=w, from_prev=bool(chain))
+        chain.append(p)
+        w = orc.first_word(p)
+        if w is None:
+            break
+        chain.append(dict(base, call=one, start=w, strict=False, from_prev=True))
+        chain.append(dict(base, call=one, start=w, from_prev=True))
+        chain.append(dict(base, call=one, start=w, strict=False, from_prev=True))
+        if fin or reverse:
+            chain.append(dict(base, call="successor" if reverse else "predecessor", reverse=not reverse, start=w, strict=False,
+                              from_prev=True))
+        chain.append(dict(base, call=one, start=w, strict=False, min=0, max=len(w) + 1, from_prev=True))
+        chain.append(dict(base, call=many, start=w, strict=False, n=3, from_prev=True))
+        chain.append(dict(base, call=one, start=w, strict=False, from_prev=True))
+    return chain
+
+
+def rerank_chain(d: DFA, orc: ChainOracle, hi):
+    """ONE callable, every ordering of the alphabet in turn (≤3 symbols: all of them), the same calls under each."""
+    sy = sorted(d.input_symbols)
+    perms = list(itertools.permutations(range(len(sy))))[:6]
+    chain = []
+    for perm in perms + perms[:1]:
+        key = {c: r for c, r in zip(sy, perm)}
+        base = dict(strict=True, key=key, keymode="shared", min=0, max=hi, n=12)
+        chain.append(dict(base, call="successors", reverse=False, start=None))
+        chain.append(dict(base, call="successor", reverse=False, start=sy[-1], n=1))
+        chain.append(dict(base, call="successors", reverse=False, start=sy[0] + sy[-1], strict=False, min=1))
+        if orc.shape["finite"]:
+            chain.append(dict(base, call="predecessors", reverse=True, start=None))
+            chain.append(dict(base, call="predecessor", reverse=True, start=sy[0] + sy[0], n=1))
+            chain.append(dict(base, call="successors", reverse=True, start=sy[-1], strict=False))
+    return chain
+
+
+def chain_corpus():
+    ab, abc = {"a", "b"}, {"a", "b", "c"}
+    yield DFA.from_finite_language(ab, {"", "a", "ab", "b", "ba", "bb"}), None
+    yield DFA(states={0, 1, 2, 3, 4}, input_symbols=abc,
+              transitions={0: {"a": 1, "b": 2, "c": 3}, 1: {"a": 4, "b": 3, "c": 4}, 2: {"a": 3, "b": 4, "c": 3},
+                           3: {"a": 4, "b": 4, "c": 4}, 4: {"a": 4, "b": 4, "c": 4}}, initial_state=0, final_states={0, 2, 3}), None
+    yield DFA(states={"i", "a", "b", "c"}, input_symbols=abc,
+              transitions={"i": {"a": "a", "b": "b", "c": "c"}, "a": {"b": "b", "c": "c"}, "b": {"a": "a", "c": "c"},
+                           "c": {"a": "a", "b": "b"}}, initial_state="i", final_states={"a", "b", "c"}, allow_partial=True), 3
+    yield DFA.from_substring({"0", "1"}, "11", contains=False), 4
+    yield DFA(states={0, 1, 2}, input_symbols=abc, transitions={0: {"a": 1, "c": 0}, 1: {"b": 2}, 2: {"a": 1, "c": 2}},
+              initial_state=0, final_states={2}, allow_partial=True), 4
+
+
+def chain_family(ctx: Ctx):
+    rng = ctx.rng
+    for d, hi in chain_corpus():
+        orc = ChainOracle(d)
+        sy = sorted(d.input_symbols)
+        cp = {c: i for i, c in enumerate(sy)}
+        rv = {c: -i for i, c in enumerate(sy)}
+        if hanging(ctx):
+            return
+        for style in L3.KEY_STYLES:
+            for mode in ("frozen", "plain"):
+                check_chain(ctx, d, mode, style, rerank_chain(d, orc, hi), "corpus_rerank", orc)
+        for mode in ("frozen", "plain"):
+            for keymode, key in (("none", cp), ("none_explicit", cp), ("shared", cp), ("shared", rv), ("int", rv)):
+                for lo, h in ((0, hi), (1, 2 if hi is None else hi - 1)):
+                    for start in ("", sy[0], sy[-1] + sy[0]):
+                        check_chain(ctx, d, mode, "closure", walk_chain(orc, start, lo, h, keymode, key), "corpus_walk", orc)
+                    if orc.shape["finite"]:
+                        check_chain(ctx, d, mode, "dict_get", walk_chain(orc, sy[-1] * 3, lo, h, keymode, key, reverse=True),
+                                    "corpus_walk", orc)
+    for _ in range(ctx.budget(420, 9000)):
+        if hanging(ctx):
+            return
+        d, kind = L.shaped_dfa(rng, 6)
+        if not d.input_symbols:
+            continue
+        orc = ChainOracle(d)
+        if not orc.feasible() or orc.shape["empty"]:
+            ctx.stat("chain_skipped:empty_or_too_large")
+            continue
+        ctx.stat(f"chain_kind:{kind}")
+        mode = rng.choice(["frozen", "frozen", "plain", "aliased", "copy_of_plain"])
+        check_chain(ctx, d, mode, rng.choice(L3.KEY_STYLES), rand_chain(rng, d, orc), "random", orc)
+
+
 # ------------------------------------------------------------------ corpus
 def corpus():
     a = {"a"}
@@ -596,6 +1002,7 @@ def run(ctx: Ctx):
         if codepoint_order(d.input_symbols, p["key"]) and i % 2 == 0:
             p["keymode"] = "none"
         check_case(ctx, d, enc, sy, L.language_shape(d), p, "corpus")
+    chain_family(ctx)
     finding_probes(ctx)
     # ---- bounded-exhaustive
     thorough = ctx.thorough()
@@ -678,6 +1085,15 @@ def replay(ctx: Ctx, path: str) -> int:
     rp = data.get("replay", data)
     d = eval(rp["automaton"], {"DFA": DFA, "frozenset": frozenset})
     p = rp["params"]
+    if "chain" in p:
+        obs, bad = run_chain(d, p["mode"], p["keystyle"], p["chain"])
+        if bad:
+            i, msg = bad[0]
+            print(f"VIOLATION property=C14 replay={path}")
+            print(f"  {show_chain_step(p['chain'][i])} {msg} — call #{i + 1} of the recorded chain on one object")
+            return 1
+        print("replay: property holds on this input now")
+        return 0
     shape = L.language_shape(d)
     kind = domain_kind(d, p, shape)
     if kind in ("foreign_symbol", "empty_alphabet"):
